@@ -18,15 +18,15 @@ from vlib.verdict import Case
 
 PROPERTY = 'C20'
 MANIFEST = {
- 'level_text': 'Lean 4 theorems about a model of Irc.addCallback/getCallback/removeCallback, IrcCallback/Owner/Misc.callPrecedence and the control flow of Owner.load/unload/reload: for every iteration order of the Python sets the computed order is a permutation of the callbacks in which every resolved before/after edge holds (order_sound), Owner is first and Misc last (owner_first, misc_last), constraint sets admitting no order are rejected and leave the list unchanged (cycle_rejected) while every constraint set that admits an order is accepted (acyclic_accepted), the loop never needs more rounds than callbacks (fuel_enough); along every history of load/unload/reload with arbitrary failures the list keeps unique names, satisfied edges and Owner first (history_inv), failed loads and attempts on Owner change nothing (load_failure_preserves, owner_stays), a reload whose module raises ImportError puts the old instance back (reload_import_failure_keeps), the answered commands are exactly those of the registered plugins (commands_union); all Irc objects (networks) refer to one list object that the commands only mutate in place, so every network sees the same list after any history (shared_view, shared_history). The model is tied to /repo by a differential run of seeded random histories against a live bot with synthetic plugins (arbitrary callBefore/callAfter incl. unknown names, cycles, case variants, raising __init__/die/import), which also evaluates the property statement on the implementation after every step.',
- 'level_note': 'Trusted: Lean kernel; axioms propext/Classical.choice/Quot.sound only; the correspondence harness and its synthetic plugins; names are ASCII (str.lower modelled on ASCII). Modelled and proved: the topological sort of addCallback with its set-order freedom, case-insensitive lookup/removal, the callPrecedence variants including the firewall that turns the self-reference assertion into "no constraints", the success/failure paths of load/unload/reload. Exercised only: importing modules from disk, conf.registerPlugin flags, command dispatch of the probe commands (C14 covers dispatch). Known findings kept in the model: reload loses the plugin when the new module raises a non-ImportError or the new constructor raises (reload_failure_partial, reload_ctor_counter); a plugin naming itself in callBefore/callAfter silently loses all its constraints.',
+ 'level_text': 'Lean 4 theorems about a model of Irc.addCallback/getCallback/removeCallback, IrcCallback/Owner/Misc.callPrecedence and the control flow of Owner.load/unload/reload: for every iteration order of the Python sets the computed order is a permutation of the callbacks in which every resolved before/after edge holds (order_sound), Owner is first and Misc last (owner_first, misc_last), constraint sets admitting no order are rejected and leave the list unchanged (cycle_rejected) while every constraint set that admits an order is accepted (acyclic_accepted), the loop never needs more rounds than callbacks (fuel_enough); along every history of load/unload/reload with arbitrary failures the list keeps unique names, satisfied edges and Owner first (history_inv), failed loads and attempts on Owner change nothing (load_failure_preserves, owner_stays), a reload whose module cannot be imported (ImportError or any other exception) puts the untouched old instance back (reload_failure_preserves), a plugin naming itself in callBefore/callAfter is rejected as a cycle (self_reference_rejected), the answered commands are exactly those of the registered plugins (commands_union); all Irc objects (networks) refer to one list object that the commands only mutate in place, so every network sees the same list after any history (shared_view, shared_history). The model is tied to /repo by a differential run of seeded random histories against a live bot with synthetic plugins (arbitrary callBefore/callAfter incl. unknown names, cycles, case variants, raising __init__/die/import), which also evaluates the property statement on the implementation after every step.',
+ 'level_note': 'Trusted: Lean kernel; axioms propext/Classical.choice/Quot.sound only; the correspondence harness and its synthetic plugins; names are ASCII (str.lower modelled on ASCII). Modelled and proved: the topological sort of addCallback with its set-order freedom, case-insensitive lookup/removal, the callPrecedence variants (a self-reference is a one-element cycle), the success/failure paths of load/unload/reload. Exercised only: importing modules from disk, conf.registerPlugin flags, command dispatch of the probe commands (C14 covers dispatch). Known finding kept in the model: reload loses the plugin when the new constructor raises or the new instance closes a cycle, because the old instance has been killed by then (reload_failure_partial, reload_ctor_counter).',
  'technique': 'Lean 4 proof (loop invariants over the extraction rounds, history induction) + differential correspondence on a live bot',
  'design_ref': 'DESIGN.md §6 C20',
 }
 THEOREMS = ['C20.order_sound', 'C20.owner_first', 'C20.misc_last', 'C20.cycle_rejected', 'C20.acyclic_accepted',
             'C20.fuel_enough', 'C20.duplicate_rejected', 'C20.history_inv', 'C20.load_failure_preserves',
-            'C20.owner_stays', 'C20.reload_import_failure_keeps', 'C20.reload_failure_partial',
-            'C20.reload_ctor_counter', 'C20.self_reference_counter', 'C20.commands_union',
+            'C20.owner_stays', 'C20.reload_failure_preserves', 'C20.reload_failure_partial',
+            'C20.reload_ctor_counter', 'C20.self_reference_rejected', 'C20.commands_union',
             'C20.shared_view', 'C20.shared_history']
 TRUSTED = ['Lean 4.33.0 kernel; axioms ⊆ {propext, Classical.choice, Quot.sound}',
            'harness/c20.py generators, reply canonicalisation, synthetic plugins harness/plugins/VtOrd0..5',
@@ -41,7 +41,6 @@ PLUGDIR = os.path.join(os.path.dirname(os.path.abspath(__file__)), 'plugins')
 VT = ['VtOrd%d' % i for i in range(6)]
 BASE = ('Owner', 'Misc', 'User')
 F_RELOAD = 'C20-reload-loses-plugin'
-F_SELF = 'C20-self-reference'
 
 _cfg = None
 def get_bot():
@@ -250,17 +249,8 @@ def run_trial(b, c, trial):
             fault = ''            # the failure knobs exist only in the synthetic plugins
         c.import_fails = set([rn]) if fault == 'import' and rn else set()
         c.import_other = set([rn]) if fault == 'other' and rn else set()
-        # (a stale module is detected below, after the knobs are set: it overrides them)
         c.init_raises = set([rn]) if fault == 'ctor' and rn else set()
         c.die_raises = set([rn]) if fault == 'die' and rn else set()
-        stale = False
-        if kind == 'reload':
-            cb0 = b.irc.getCallback(nm)
-            if cb0 is not None and nm.lower() != 'owner' and cb0.__module__ not in sys.modules:
-                # an earlier failed import purged the module from sys.modules (plugin.loadPluginModule does that);
-                # Owner.reload then dies on `sys.modules[callbacks[0].__module__]` (KeyError) after having removed the
-                # callback: for the model this is "the import phase raises something that is not an ImportError"
-                stale = True; fault = 'other'; tags.add('stale-module')
         which = op.get('irc', 0)
         if op.get('bump') and rn in VT and kind in ('load', 'reload'):
             # the module "on disk" changes between two (re)loads: other command set, told apart by alt<i>
@@ -325,11 +315,7 @@ def run_trial(b, c, trial):
         for (a, bb, who, selfref) in resolved_constraints(b, c):
             if after_names.index(a) > after_names.index(bb):
                 msg = 'step %d (%s %s): declared constraint of %s violated: %s must come before %s in %r' % (si, kind, nm, who, a, bb, after_names)
-                if selfref:
-                    findings.add(F_SELF); tags.add('finding:selfref-misorder')
-                    problems.append(msg + ' [the plugin names itself: all its constraints are dropped]')
-                else:
-                    problems.append(msg)
+                problems.append(msg + (' [the plugin names itself]' if selfref else ''))
         isowner = (nm[:-3] if nm.endswith('.py') else nm).lower() == 'owner'
         if kind == 'load' and reply != 'success' and after_names != before_names:
             problems.append('step %d: failed load %s (%s) changed the list: %r -> %r' % (si, nm, reply, before_names, after_names))
@@ -337,7 +323,7 @@ def run_trial(b, c, trial):
             problems.append('step %d: %s %s: %s, %r -> %r' % (si, kind, nm, reply, before_names, after_names))
         if kind == 'reload' and reply != 'success' and sorted(after_names) != sorted(before_names):
             msg = 'step %d: failed reload %s (%s, fault %s) lost a plugin: %r -> %r' % (si, nm, reply, fault or 'cycle', before_names, after_names)
-            if fault in ('other', 'ctor') or reply == 'exception':
+            if fault == 'ctor' or (fault == '' and reply == 'exception'):
                 findings.add(F_RELOAD); tags.add('finding:reload-loses')
                 problems.append(msg + ' [known class: reload after the old instance was removed]')
             else:
@@ -350,13 +336,11 @@ def run_trial(b, c, trial):
 
 def classify(problems, findings):
     """a trial whose only oracle failures are of a known class is attributed to that class"""
-    unknown = [p for p in problems if '[known class' not in p and '[the plugin names itself' not in p]
+    unknown = [p for p in problems if '[known class' not in p]
     if unknown:
         return None, unknown
     if F_RELOAD in findings and any('[known class' in p for p in problems):
         return F_RELOAD, problems
-    if F_SELF in findings:
-        return F_SELF, problems
     return None, problems
 
 def gen_trial(r, maxops):
@@ -478,9 +462,6 @@ def finding_status(ctx):
     _, _, problems, findings, _, _ = run_trial(b, c, WITNESS_RELOAD)
     problems = [p for p in problems if '[known class' in p]
     st[F_RELOAD] = (F_RELOAD in findings, "reload of a loaded plugin whose new constructor raises: the old instance is already dead and unregistered, the plugin is gone (%s)" % (problems[0] if problems else 'no longer reproduces'))
-    _, _, problems, findings, _, _ = run_trial(b, c, WITNESS_SELF)
-    problems = [p for p in problems if '[the plugin names itself' in p]
-    st[F_SELF] = (F_SELF in findings, "a plugin naming itself in callBefore/callAfter loads without error and silently loses all its constraints (%s)" % (problems[0] if problems else 'no longer reproduces'))
     hard_reset(b, c)
     return st
 
